@@ -14,5 +14,6 @@ PY
 )
 python3 /verif/bin/seed_prompt.py $id /tmp/seed/$id "Earlier rounds already produced the following changes for this property; yours must use DIFFERENT mechanisms and preferably different functions/files, and should need rarer or more specific conditions to manifest. First list for yourself the distinct clauses of the statement and the exported functions/methods/options of the anchored files; then attack a CLAUSE and an exported entry point / option that none of the earlier changes touched (prefer: an interleaving window, a fault at one particular call, a three-or-more-step history, a boundary input, an unusual option/configuration, or two cooperating edits):
 $prev
+Functions in the anchored files that NO earlier change has touched yet (prefer these): $(python3 /verif/bin/untouched.py $id)
 Note: the source may contain calls verifYield(\"...\") that are no-ops in normal builds; leave them in place." > /tmp/seed/$id.prompt
 echo "$id ready"
